@@ -49,6 +49,11 @@ CHECKS = {
    "Every spelling of three canonical paths in which any subset of up to five unreserved octets is percent-encoded in upper or lower hex (3^5 per path) and every insertion of %2F/%2f into the last segment is sent as raw bytes through http.ReadRequest and the real handler chains for five rule-set shapes and the three settings; matched rule, captures and decision must equal those of the canonical spelling; encoded slashes must be rejected (off/default rule), preserved (no_decode) or decoded (on) in captures and in the request line received by the recording upstream.",
    "Paths of <=3 segments; reserved characters other than '/' are not explored; hex case of a preserved escape is not judged.",
    "DESIGN.md 4 C08"),
+ "C15": ("exploration", "enum",
+   "bounded exhaustive enumeration of request URLs x rewrite configurations x encoded-slash settings, methods x bodies, and colliding client/pipeline header sets x forwarded-header subsets x peers through the real proxy handler chain, real ReverseProxy and a recording upstream; reference rewrite on octets",
+   "Three full products are sent as raw request bytes through the real proxy service to a recording upstream on loopback: every path of the alphabet x query x every rewrite configuration x setting; methods x body sizes; pipeline headers against every subset/casing/repetition of same-named client headers with all subsets of client-sent forwarded headers from trusted and untrusted peers; the received request line, headers and body are compared with a reference rewrite (strip then add on the escaped path, escapes byte-identical, no double encoding, query multiset minus removed names, one field per pipeline header, forwarded headers regenerated).",
+   "With allow_encoded_slashes=on only the decoded path and absence of double encoding are compared; parameter order and semicolon queries are not judged.",
+   "DESIGN.md 4 C15"),
 }
 
 NOT_YET = {
